@@ -253,6 +253,21 @@ class Check:
         st = self.clause_status()
         ledger = self.load_ledger() or {"clauses": {}}
         update = os.environ.get("PYVC_UPDATE_LEDGER") == "1"
+        # a ledger clause that this run did not generate, although its function was analysed, means the
+        # function's control flow no longer reaches that obligation: undischarged, not a checker error
+        funcs_now = {ob.func for ob in self.obs}
+        self.missing_handled = set()
+        if not update:
+            for k in ledger["clauses"]:
+                if k not in st and k.split(" :: ")[0] in funcs_now:
+                    func, clause = k.split(" :: ", 1)
+                    ob = Ob(func, clause, "not-generated", [], z3.BoolVal(False),
+                            {"note": "obligation present in the ledger was not generated from the current source "
+                                     "(the function no longer reaches it)"})
+                    ob.result, ob.backend = "sat", "none (structural)"
+                    self.obs.append(ob)
+                    st[k] = "failed"
+                    self.missing_handled.add(k)
         for k, v in st.items():
             if v == "discharged":
                 continue
@@ -288,7 +303,7 @@ class Check:
         if ledger is not None and not update:
             for k, want in ledger["clauses"].items():
                 if k not in st:
-                    self.errors.append(f"ledger clause not generated: {k}")
+                    self.errors.append(f"ledger clause not generated (function not analysed at all): {k}")
         if update:
             self.write_ledger()
         n_ob = len([o for o in self.obs if o.expect == "unsat"])
